@@ -29,6 +29,13 @@ def run(ctx, replay=None):
     if not r2.inv_violated:
         raise core.Inconclusive("Publisher in-place variant: expected the [A, C, C] counterexample (vacuity guard)")
     ctx.notes.append("Publisher.tla: fresh-array removal holds; in-place removal violates %s" % r2.inv_violated)
+    rc = ctx.tlc("MC_PubChurn", "MC_PubChurn_atomic.cfg", workers=4, timeout=300, cwd=tla)
+    rs = ctx.tlc("MC_PubChurn", "MC_PubChurn_split.cfg", workers=4, timeout=300, cwd=tla)
+    if not rc.completed or "Inv_Membership" not in (rs.inv_violated or []):
+        raise core.Inconclusive("PubChurn model: the atomic variant must hold and the split variant must lose an update (vacuity guard)")
+    ctx.add_states(rc)
+    ctx.notes.append("PubChurn.tla: list changes racing with list changes keep the registered set exact when every change is one critical section; TLC exhibits the lost "
+                     "update of the read-then-store variant; the real publisher is raced in the 'churn' runs (400 subscriptions, 6 goroutines)")
     tf = os.path.join(ctx.scratch, "c10.trace.ndjson")
     p, crash = ctx.drv_crashable(["c10", "record", "--rounds", 30 if quick else 1500, "--out", tf], timeout=3000)
     if crash:
